@@ -62,6 +62,8 @@ func c12Boundary() []c12Case {
 	boxes := []ivg.ViewBox{
 		{-32, -32, 32, 32}, {0, 0, 48, 48}, {0, 0, 24, 24}, {0, 0, 64, 32}, {0, 0, 32, 64}, {-10, 5, 90, 25},
 		{100, 100, 101, 103}, {-1e5, -1e5, 1e5, 2e5}, {0, 0, 1e-3, 2e-3}, {0, 0, 1, 1e4}, {0, 0, 1e4, 1}, {-3, -7, -1, -2},
+		// boxes that touch the origin with another corner or edge than the usual one
+		{-48, -24, 0, 0}, {-48, 0, 0, 24}, {0, -24, 48, 0}, {-20, -7, 0, 3}, {-5, -30, 9, 0},
 	}
 	sizes := [][2]float32{{256, 256}, {64, 64}, {100, 50}, {50, 100}, {1, 1}, {1920, 1080}, {1080, 1920}, {3, 1e4}, {1e4, 3}, {0.5, 0.25}, {17, 17.000002}}
 	aligns := []float32{0, 0.5, 1, 0.25}
@@ -133,6 +135,25 @@ func c12Random(c *run.Ctx, idx uint64) {
 	vb := ivg.ViewBox{MinX: float32(ox), MinY: float32(oy), MaxX: float32(ox + w), MaxY: float32(oy + h)}
 	if idx%5 == 0 {
 		vb = ivg.ViewBox{MinX: 0, MinY: 0, MaxX: float32(w), MaxY: float32(w)}
+	} else if r.Chance(1, 4) {
+		// a box that touches an axis with one of its edges, or the origin with
+		// one of its corners: any of the four coordinates exactly zero
+		switch r.Intn(3) {
+		case 0:
+			vb.MinX, vb.MaxX = 0, float32(w)
+		case 1:
+			vb.MinX, vb.MaxX = -float32(w), 0
+		}
+		switch r.Intn(3) {
+		case 0:
+			vb.MinY, vb.MaxY = 0, float32(h)
+		case 1:
+			vb.MinY, vb.MaxY = -float32(h), 0
+		}
+		if vb.MaxX == 0 && vb.MaxY == 0 {
+			c.Count("box_with_its_far_corner_at_the_origin", 1)
+		}
+		c.Count("box_edge_on_an_axis", 1)
 	}
 	sw, sh := vb.MaxX-vb.MinX, vb.MaxY-vb.MinY
 	// The origin may swallow a small size in float32; the property is about
